@@ -1,13 +1,15 @@
 import Okane.Lemmas.NoCrash
 import Okane.Lemmas.Diag
+import Okane.Lemmas.ParseTotalDiag
 import Okane.Props.C11
 /-!
 # C06 — every input yields output or a diagnostic: no crash, no hang
 
 `Outcome.crashes o` is "`o` is `panic _` or `fuelOut`": the model's rendering of a Rust panic and of an
-unbounded loop.  The theorems below cover the model functions that exist for book-keeping and for error
-reporting.  The statements over the parser, the printer and the loader (`C06_parse`, `C06_format`, `C06_load`)
-are kept visible as `Prop`s over those models' entry points; they are proved where those models live.
+unbounded loop.  The theorems below cover the parser (`C06_parse_holds`: every text, `ParseError` construction
+included), `format` (`C06_format_holds`), the loader (`C06_load`), book-keeping and error reporting.
+The statements `C06_parse`, `C06_format`, `C06_load_stmt` are kept visible as `Prop`s over the models' entry points.
+The parser proofs live in `Lemmas/ParseTotal{Comb,Expr,Grammar,,Diag}.lean`.
 Wall-clock promptness, real stack depth (see known finding F9) and panics inside third-party crates are not
 expressible here: the C06 streams observe them on the real code, no theorem carries them.
 -/
@@ -53,6 +55,89 @@ included), every glob option set and every root, loading with fuel `|files| + 1`
 theorem C06_load_fake (o : Load.GlobOpts) (t : Load.Tree) (root : Load.Path) :
     (Load.load (Load.fakeFS o t) (t.files.length + 1) root).status.crashes = false :=
   Load.C11_fake_terminates o t (t.files.length + 1) (Nat.lt_succ_self _) root
+
+/-! ## the ledger parser and `format` -/
+
+/-- **C06_parse.**  For every text, the ledger parser model run with fuel `|t| + 1` ends in `ok` (the entries) or in
+`err` (a `ParseError`): it reaches no `ParserError::assert` site of winnow's `repeat` / `repeat_till` / `separated`
+(every repeated element of okane's grammar consumes at least one character when it succeeds), none of the model's
+fuel bounds (combinator loops `length + 1`, `lot`'s loop `length + 1`, the expression parser `parseFuel`, the entry
+iterator `|t| + 1`), and the construction of the `ParseError` does not panic. -/
+theorem C06_parse_holds : C06_parse Parse.parseLedgerFuel := fun t =>
+  ⟨t.length + 1, Nat.le_refl _, by rw [Parse.parseLedgerFuel_eq]; exact Parse.parseLedger_safe t⟩
+
+/-- the same, on the model's entry point `parseLedger` (which passes the fuel `|t| + 1` itself) -/
+theorem C06_parse_safe (t : List Char) : (Parse.parseLedger t).crashes = false := Parse.parseLedger_safe t
+
+/-- **C06_parse, outcome form, with the `ParseError` construction at byte level.**  `parse_ledger` returns the
+entries, or an error whose checkpoint and failure position are byte positions `startPos ≤ errPos ≤ |text|` of the
+UTF-8 text — so winnow's `offset_from` assertion and `compute_line_number`'s assert hold, the char-boundary search
+of `ParseError::new` ends within its fuel (`C06_parse_error_new`), and the byte-level construction yields the same
+`line_start` and `error_span` as the parser model reports. -/
+theorem C06_parse_total (t : List Char) :
+    (∃ es, Parse.parseLedger t = .ok es) ∨
+    (∃ e, Parse.parseLedger t = .err e ∧
+      ∃ startPos errPos, startPos ≤ errPos ∧ errPos ≤ (encode t).length ∧
+        ∃ pe, parseErrorNew (parseErrorFuel (encode t)) (encode t) startPos errPos = .ok pe ∧
+          pe.lineStart = e.lineStart ∧ pe.errorSpan = ⟨e.offset, e.spanEnd⟩) := by
+  rcases Parse.parseLedger_total t with h | ⟨e, h, _⟩
+  · exact .inl h
+  · exact .inr ⟨e, h, Parse.parseLedger_error_constructible t e h⟩
+
+/-- **C06_format.**  `format` (parse, then print every entry followed by an empty line) returns text or a
+`ParseError`, for every text and every display-width function. -/
+theorem C06_format_holds (w : List Char → Nat) : C06_format (Unparse.format w) := Unparse.format_safe w
+
+theorem C06_format_total (w : List Char → Nat) (t : List Char) :
+    (∃ out, Unparse.format w t = .ok out) ∨ (∃ e, Unparse.format w t = .err e) := Unparse.format_total w t
+
+/-- "cut at every character": every prefix of every text is parsed / formatted without a crash -/
+theorem C06_parse_prefix (t p : List Char) (h : p <+: t) : (Parse.parseLedger p).crashes = false :=
+  C06_prefix Parse.parseLedger C06_parse_safe t p h
+
+theorem C06_format_prefix (w : List Char → Nat) (t p : List Char) (h : p <+: t) :
+    (Unparse.format w p).crashes = false :=
+  C06_prefix (Unparse.format w) (C06_format_holds w) t p h
+
+/-- **no repeated element of okane's grammar succeeds on empty input** (the obligation behind winnow's
+`ParserError::assert`): each element (resp. separator) of every `repeat` / `repeat_till` / `separated` of the
+grammar, and the entry parser iterated by `ParsedIter`, is `Safe 1` — never panics, never runs out of fuel, leaves
+a suffix of its input, at least one character shorter on success. -/
+theorem C06_loop_elements_consume :
+    Comb.Safe 1 (Comb.alt2 Comb.lineEnding (Comb.void (Comb.pair Comb.space1 (Comb.alt2 Comb.lineEnding Comb.eof)))) ∧
+    Comb.Safe 1 (Comb.terminated Parse.tagKey (Comb.char ':')) ∧
+    Comb.Safe 1 Comb.space1 ∧
+    Comb.Safe 1 (Comb.preceded Comb.space1 Parse.lineMetadata) ∧
+    Comb.Safe 1 Parse.accountWord ∧
+    Comb.Safe 1 (Comb.preceded (Comb.pair (Comb.takeWhile1 Comb.isSpace) (Comb.not Parse.lineEndingOrEof))
+      (Comb.cutErr Parse.posting)) ∧
+    Comb.Safe 1 Parse.detailComment ∧ Comb.Safe 1 Parse.detailNote ∧ Comb.Safe 1 Parse.detailAlias ∧
+    Comb.Safe 1 (Comb.delimited (Comb.pair Comb.space1 (Comb.pair (Comb.literal Parse.kwFormat) Comb.space1))
+      Parse.amount Parse.lineEndingOrEof) ∧
+    Comb.Safe 1 Parse.parseLedgerEntry :=
+  ⟨Parse.safe_verticalSpaces_elem, Parse.safe_metadataTags_elem.mono (by decide), Comb.safe_space1 (Nat.le_refl _),
+   Comb.safe_preceded (Comb.safe_space1 (Nat.le_refl _)) Parse.safe_lineMetadata (by decide),
+   Parse.safe_accountWord, Parse.safe_transaction_elem.mono (by decide),
+   Parse.safe_detailComment, Parse.safe_detailNote, Parse.safe_detailAlias.mono (by decide),
+   Comb.safe_delimited
+     (Comb.safe_pair (Comb.safe_space1 (Nat.le_refl _))
+       (Comb.safe_pair (Comb.safe_literal _ (Nat.le_refl _)) (Comb.safe_space1 (Nat.le_refl _)) (Nat.le_refl _))
+       (Nat.le_refl _))
+     Parse.safe_amount Parse.safe_lineEndingOrEof (by decide),
+   Parse.safe_parseLedgerEntry⟩
+
+/-- the three loops of winnow used by okane: with a consuming element (separator) neither the assert site nor the
+fuel bound `length + 1` the model passes is reachable, whatever the element parser is -/
+theorem C06_loops {α β : Type} {p : Comb.Parser α} {q : Comb.Parser β} {k : Nat} (hp : Comb.Safe 1 p) (hq : Comb.Safe k q) :
+    Comb.Safe 0 (Comb.repeat0 p) ∧ Comb.Safe 1 (Comb.repeat1 p) ∧ Comb.Safe 1 (Comb.repeatTill1 p q) ∧
+    Comb.Safe k (Comb.separated1 q p) :=
+  ⟨Comb.safe_repeat0 hp (Nat.le_refl _), Comb.safe_repeat1 hp (Nat.le_refl _),
+   Comb.safe_repeatTill1 hp hq (Nat.le_refl _), Comb.safe_separated1 hq hp (Nat.le_refl _)⟩
+
+/-- the fuel of the expression parser always suffices: `parseFuel inp = 5 |inp| + 10` units for a recursion that
+needs at most `5 |inp| + 1` -/
+theorem C06_expr_fuel (inp : List Char) : ExprSyntax.parseValueExpr inp ≠ .fuelOut :=
+  ExprSyntax.parseValueExpr_ne_fuelOut inp
 
 /-! ## book-keeping -/
 
@@ -141,6 +226,14 @@ theorem C06_error_context {π : Type} (path : π) (c : PCtx) (e : BkSpans)
   cases e <;> simp_all [ErrorContext.annotations, BkSpans.tracked]
 
 /-! ## non-vacuity -/
+
+-- the parser is not constant: a transaction is accepted, a month 13 is a `ParseError`, and with one unit of fuel
+-- the iterator does say `fuelOut` on a text with two entries, so the bound of `C06_parse_holds` is not vacuous
+example : (Parse.parseLedger "2024/01/01 x\n A  1 USD\n B\n".toList).isOk = true := by decide +kernel
+example : (Parse.parseLedger "2024/13/01 x\n".toList).isErr = true := by decide +kernel
+example : (Parse.parseLedgerFuel 1 "; a\n\n; b\n".toList).crashes = true := by decide +kernel
+example : (Unparse.format Unparse.widthStd "2024/01/01 x\n A  (1 + 2) * 3 USD\n B\n".toList).isOk = true := by decide +kernel
+example : (Unparse.format Unparse.widthStd "account A\n  alias\n".toList).isErr = true := by decide +kernel
 
 -- `process` is not constant: a balanced transaction is accepted, an unbalanced one and a cost on a
 -- commodity-less zero amount are rejected with an error (not the `unreachable!`)
